@@ -15,6 +15,7 @@ TRANSFORMS = [
     ["transform.mirror", ["xy"]], ["transform.mirror", ["zx"]], ["transform.set_pivot", [[1.0, 1.0, 0.0]]],
     ["transform.set_pivot", [[0.5, -1.0, 2.0]]], ["transform.save_state", ["n"]], ["transform.restore_state", ["n"]],
     ["transform.save_state", []], ["transform.restore_state", []],
+    ["transform.chain_transform", [["ref", "shear"]]],       # a caller-owned matrix through the public chain_transform(), the same ndarray every time
 ]
 SYNC = ["move", [], {"x": 1.0, "y": 2.0, "z": 3.0}]
 MOTIONS = [
@@ -36,6 +37,9 @@ class Case:
         self.dp = abs(dp)
         self.st = Sut({"decimal_places": abs(dp)})
         g = self.st.g
+        import numpy
+        from .c13 import SHEAR
+        self.st.refs["shear"] = numpy.array(SHEAR, dtype=float)
         if dp < 0:                 # negative = same precision, with a move hook registered
             g.add_hook(passive_hook)
         g.set_resolution(1.0)
@@ -219,6 +223,12 @@ def histories(tier):
             for m1 in rel_smalls:
                 for m2 in rel_smalls:
                     out.append((dp, [t, big, ["set_distance_mode", ["relative"]], m1, m2, m1]))
+    # the same caller-owned matrix chained repeatedly about a pivot (an incremental step applied in a loop)
+    CH = TRANSFORMS[-1]
+    for piv in (TRANSFORMS[11], TRANSFORMS[12]):
+        for k in (2, 3):
+            for ms in motions(1):
+                out.append((12, [piv] + [CH] * k + [SYNC] + ms))
     # a move hook is registered (hooks see and may rewrite the parameters; this one returns them unchanged)
     for ts in seqs(TRANSFORMS[:12], 1 if tier == "quick" else 2):
         for ms in motions(2):
